@@ -155,6 +155,7 @@ def check(prog: Program, tier: str) -> Result:
     stats = site_obligations(prog, res, "R8.2", need_bare=True)
     _producer(prog, res)
     _magic_methods(prog, res)
+    _magic_functions_outside_classes(prog, res)
     # R8.5: the names used by the preserved files are READ FROM DISK for every run: no memo between the files and `preserve`
     from . import c05 as _c05
     anchors = set()
@@ -257,7 +258,9 @@ def _magic_methods(prog: Program, res: Result) -> None:
     fn = prog.funcs.get(("fixes", "delete_unused_functions_and_classes"))
     if fn is None:
         raise AnalysisError("anchor fixes.delete_unused_functions_and_classes not found")
-    loops = [l for l in walk_own(fn.node) if isinstance(l, ast.For) and any("is_magic_method" in norm(x) for x in ast.walk(l))]
+    # the loop that attributes magic methods to classes: is_magic_method applied to the BODY of the loop variable
+    loops = [l for l in walk_own(fn.node) if isinstance(l, ast.For) and isinstance(l.target, ast.Name)
+             and any(isinstance(x, (ast.Call, ast.For, ast.comprehension)) and "is_magic_method" in norm(x) and f"{l.target.id}.body" in norm(x) for x in ast.walk(l))]
     if not loops:
         res.undecided("R8.4", fn.loc(), fn.fq, "magic methods of classes", "no loop using parsing.is_magic_method found")
         return
@@ -308,6 +311,49 @@ def _magic_methods(prog: Program, res: Result) -> None:
                    "skipped when the class is preserved" if ok else
                    "a magic method is deleted when its class has no use IN THIS FILE, although the class is preserved because another file uses it: "
                    "the client's Greeter() loses __init__ / __str__")
+
+
+def _magic_functions_outside_classes(prog: Program, res: Result) -> None:
+    """R8.4 (c): a dunder function that belongs to NO class - a module-level `__getattr__` / `__dir__` (PEP 562) - is called by
+    the import system, never by name: `lib.lazy_thing` and `from lib import lazy_thing` in a preserved file go through it.
+    Every deletion of a function for lack of uses is reached only when the function has a class (whose uses count) or is
+    known not to be a magic method."""
+    from ..pathcond import plain
+    fn = prog.funcs.get(("fixes", "delete_unused_functions_and_classes"))
+    pa = PathAnalysis(prog, fn)
+    n = 0
+    for y in walk_own(fn.node):
+        if not (isinstance(y, ast.Yield) and isinstance(y.value, ast.Tuple) and len(y.value.elts) >= 2 and isinstance(y.value.elts[0], ast.Name)
+                and isinstance(y.value.elts[1], ast.Constant) and y.value.elts[1].value is None):
+            continue
+        v = y.value.elts[0].id
+        lp = parent(y)
+        while lp is not None and not isinstance(lp, ast.For):
+            lp = parent(lp)
+        # only the loop over FUNCTION definitions (the collection is filled from a walk for FunctionDef)
+        src = " ".join(norm(x) for _s, x in assignments(fn, norm(lp.iter)) if x is not None) if lp is not None else ""
+        fills = [norm(l_.iter) for l_ in walk_own(fn.node) if isinstance(l_, ast.For) and lp is not None
+                 and any(isinstance(c, ast.Call) and isinstance(c.func, ast.Attribute) and c.func.attr in ("append", "add") and norm(c.func.value) == norm(lp.iter) for c in ast.walk(l_))]
+        if "FunctionDef" not in src + " ".join(fills):
+            continue
+        n += 1
+        worlds = pa.worlds_at(y)
+        ok = bool(worlds)
+        for w in worlds:
+            tok = w.token(v).split("#")[0]
+            has_class = any(f[0] == "lit" and f[2] and ".get(" in plain(f[1]) and tok in plain(f[1]) for f in w.facts) or \
+                any(f[0] == "lit" and f[2] and not any(ch in plain(f[1]) for ch in "(.=<>") and plain(f[1]) != tok for f in w.facts if False)
+            not_magic = any(f[0] == "lit" and not f[2] and "is_magic_method(" in plain(f[1]) and tok in plain(f[1]) for f in w.facts)
+            # `parent_class := D.get(def_node)` true is recorded on the walrus target
+            walrus_true = any(f[0] == "lit" and f[2] and plain(f[1]).isidentifier() and any(
+                isinstance(x, ast.NamedExpr) and isinstance(x.target, ast.Name) and x.target.id == plain(f[1]) and ".get(" in norm(x.value) for x in ast.walk(lp)) for f in w.facts)
+            ok = ok and (has_class or walrus_true or not_magic)
+        res.decide(ok, "R8.4", fn.loc(y), fn.fq, f"{short(y, 40)} # deletion of a function without uses",
+                   "reached only for methods of a class or for functions that are not magic" if ok else
+                   "a dunder function that belongs to no class (module-level __getattr__ / __dir__, PEP 562) is deleted for lack of uses: the import system calls it, "
+                   "`from lib import lazy_thing` in the preserved file stops resolving")
+    if n == 0:
+        res.undecided("R8.4", fn.loc(), fn.fq, "deletion of a function without uses", "deletion site not found")
 
 
 def _producer(prog: Program, res: Result) -> None:
@@ -379,6 +425,7 @@ def _producer(prog: Program, res: Result) -> None:
 from ..selftest import Variant  # noqa: E402
 
 VARIANTS = [
+    Variant("module-level-dunder-counts-as-unused", "FIRE", "fixes", "        elif parsing.is_magic_method(def_node):\n            continue  # A module level __getattr__ or __dir__ is called by the import system\n", "", "R8.4"),
     Variant("unused-imports-ignore-preserve", "FIRE", "fixes", "    unused_imports = set(_get_unused_imports(root)) - set(preserve)\n", "    unused_imports = set(_get_unused_imports(root))\n", "R8.6"),
     Variant("unused-imports-called-without-preserve", "FIRE", "main", "            source = fixes.remove_unused_imports(source, preserve=preserve)", "            source = fixes.remove_unused_imports(source)", "R8.1"),
     Variant("from-import-aliases-not-recorded", "FIRE", "main",
